@@ -43,7 +43,7 @@ NoDef == A("", FALSE)
 NoVal == V(0)
 NoTyp == [name |-> "", fields |-> <<>>]
 Op(o, typ, src, id, name, def, val) ==
-    [op |-> o, typ |-> typ, src |-> src, id |-> id, name |-> name, def |-> def, val |-> val]
+    [op |-> o, typ |-> typ, mid |-> NoTyp, src |-> src, id |-> id, name |-> name, def |-> def, val |-> val]
 
 \* the nullable attribute of source 1: from nil to a value, and from a value to another one.  These
 \* steps are explored by the model only in the small universe PtrOnly (with them the full one has
@@ -53,6 +53,8 @@ PtrAlphabet == NOps \cup { Op("Add", NoTyp, 1, "", "", NoDef, NoVal), Op("Remove
                            Op("SetSrc", NoTyp, 1, "", "x", NoDef, V(2)) }
 Alphabet ==
        { Op("SetType", t, 0, "", "", NoDef, NoVal) : t \in {TBase, TOther} }
+  \* away to another type and back (or on to a third), nothing read in between
+  \cup { [Op("SetTypeTwice", p[1], 0, "", "", NoDef, NoVal) EXCEPT !.mid = p[2]] : p \in {<<TBase, TOther>>, <<TOther, TBase>>} }
   \cup { Op("Add", NoTyp, s, "", "", NoDef, NoVal) : s \in 1..Len(Srcs0) }
   \cup { Op("Remove", NoTyp, 0, id, "", NoDef, NoVal) : id \in {"1", "2", "3", "9", "0"} }
   \cup { Op("AddAttr", NoTyp, 0, "", p[1], p[2], NoVal) :
